@@ -100,6 +100,245 @@ fn c17(cmd: &str, f: &[&str]) -> Option<String> {
     })
 }
 
+// ------------------------------------------------------------------------------------------
+// C10: reports
+//
+//   w  <report>      -> bytes of ReportWriter::write_as_text (color = false)
+//   wj <report>      -> bytes of ReportWriter::write_as_json
+//   r  <bytes>       -> what open_report + read_header + read_groups (drained until the first Err,
+//                       like main.rs) deliver, in the canonical form below
+//   <report> = <version> <timestamp text> <base dir> c<k> <arg>*k s<7 numbers, comma separated | -> g<k> { <hash> <len> f<k> <path>*k }*k
+//              (anything after a `|` token is ignored here: the model gets the ByteSize texts there)
+//   canonical read result:
+//     unknown | json | hdr_err | hdr_panic |
+//     text <version> <timestamp text> <base dir> c<k> .. s.. g<k> {..} end=ok|err|panic
+
+use std::io::Cursor;
+
+use chrono::{DateTime, FixedOffset};
+use fclones::report::{open_report, FileStats, ReportHeader, ReportWriter};
+use fclones::{FileGroup, FileHash, FileLen, Path};
+
+struct Rep {
+    header: ReportHeader,
+    groups: Vec<FileGroup<Path>>,
+}
+
+fn path_of(b: &[u8]) -> Path {
+    Path::from(os(b))
+}
+
+fn path_bytes(p: &Path) -> Vec<u8> {
+    p.to_path_buf().into_os_string().into_vec()
+}
+
+fn parse_report(f: &[&str]) -> Result<Rep, String> {
+    let mut i = 0;
+    let mut next = |what: &str| -> Result<&str, String> {
+        if i < f.len() {
+            i += 1;
+            Ok(f[i - 1])
+        } else {
+            Err(format!("missing {what}"))
+        }
+    };
+    let version = String::from_utf8(parse_bytes_field(next("version")?)).map_err(|e| e.to_string())?;
+    let ts_text = String::from_utf8(parse_bytes_field(next("ts")?)).map_err(|e| e.to_string())?;
+    let timestamp: DateTime<FixedOffset> =
+        DateTime::parse_from_str(&ts_text, fclones::verif_api::TIMESTAMP_FMT).map_err(|e| format!("bad ts: {e}"))?;
+    let base_dir = path_of(&parse_bytes_field(next("base dir")?));
+    let c = next("c<k>")?;
+    let k: usize = c[1..].parse().map_err(|_| "bad c<k>".to_string())?;
+    let mut command = Vec::new();
+    for _ in 0..k {
+        command.push(arg::Arg::from(os(&parse_bytes_field(next("arg")?))));
+    }
+    let st = next("stats")?;
+    let stats = if st == "s-" {
+        None
+    } else {
+        let v: Vec<u64> = st[1..].split(',').map(|x| x.parse().unwrap()).collect();
+        if v.len() != 7 {
+            return Err("stats need 7 numbers".to_string());
+        }
+        Some(FileStats {
+            group_count: v[0] as usize,
+            total_file_count: v[1] as usize,
+            total_file_size: FileLen(v[2]),
+            redundant_file_count: v[3] as usize,
+            redundant_file_size: FileLen(v[4]),
+            missing_file_count: v[5] as usize,
+            missing_file_size: FileLen(v[6]),
+        })
+    };
+    let g = next("g<k>")?;
+    let gk: usize = g[1..].parse().map_err(|_| "bad g<k>".to_string())?;
+    let mut groups = Vec::new();
+    for _ in 0..gk {
+        let hash = parse_bytes_field(next("hash")?);
+        let len: u64 = next("len")?.parse().map_err(|_| "bad len".to_string())?;
+        let fk = next("f<k>")?;
+        let fk: usize = fk[1..].parse().map_err(|_| "bad f<k>".to_string())?;
+        let mut files = Vec::new();
+        for _ in 0..fk {
+            files.push(path_of(&parse_bytes_field(next("path")?)));
+        }
+        groups.push(FileGroup {
+            file_len: FileLen(len),
+            file_hash: FileHash::from(&hash[..]),
+            files,
+        });
+    }
+    Ok(Rep {
+        header: ReportHeader {
+            version,
+            timestamp,
+            command,
+            base_dir,
+            stats,
+        },
+        groups,
+    })
+}
+
+fn show_header(h: &ReportHeader) -> String {
+    let mut out = format!(
+        "{} {} {} c{}",
+        bytes_field(h.version.as_bytes()),
+        bytes_field(h.timestamp.format(fclones::verif_api::TIMESTAMP_FMT).to_string().as_bytes()),
+        bytes_field(&path_bytes(&h.base_dir)),
+        h.command.len()
+    );
+    for a in &h.command {
+        out.push(' ');
+        out.push_str(&bytes_field(a.as_os_str().as_bytes()));
+    }
+    match &h.stats {
+        None => out.push_str(" s-"),
+        Some(s) => out.push_str(&format!(
+            " s{},{},{},{},{},{},{}",
+            s.group_count,
+            s.total_file_count,
+            s.total_file_size.0,
+            s.redundant_file_count,
+            s.redundant_file_size.0,
+            s.missing_file_count,
+            s.missing_file_size.0
+        )),
+    }
+    out
+}
+
+fn show_groups(gs: &[FileGroup<Path>]) -> String {
+    let mut out = format!(" g{}", gs.len());
+    for g in gs {
+        out.push_str(&format!(
+            " {} {} f{}",
+            bytes_field(&hex::decode(g.file_hash.to_string()).unwrap_or_default()),
+            g.file_len.0,
+            g.files.len()
+        ));
+        for p in &g.files {
+            out.push(' ');
+            out.push_str(&bytes_field(&path_bytes(p)));
+        }
+    }
+    out
+}
+
+fn cmd_read(data: Vec<u8>) -> String {
+    let starts_json = String::from_utf8_lossy(&data[..data.len().min(16 * 1024)]).starts_with('{');
+    let r = catch_unwind(AssertUnwindSafe(|| {
+        let mut reader = match open_report(Cursor::new(data)) {
+            Ok(r) => r,
+            Err(_) => return if starts_json { "json".to_string() } else { "unknown".to_string() },
+        };
+        let header = match catch_unwind(AssertUnwindSafe(|| reader.read_header())) {
+            Err(_) => return "hdr_panic".to_string(),
+            Ok(Err(_)) => return "hdr_err".to_string(),
+            Ok(Ok(h)) => h,
+        };
+        let mut groups = Vec::new();
+        let mut end = "ok";
+        let it = match reader.read_groups() {
+            Ok(it) => it,
+            Err(_) => return format!("{}{} end=err", show_header(&header), show_groups(&groups)),
+        };
+        let mut it = it;
+        loop {
+            match catch_unwind(AssertUnwindSafe(|| it.next())) {
+                Err(_) => {
+                    end = "panic";
+                    break;
+                }
+                Ok(Err(_)) => {
+                    end = "err";
+                    break;
+                }
+                Ok(Ok(None)) => break,
+                Ok(Ok(Some(g))) => groups.push(g),
+            }
+        }
+        format!(
+            "{} {}{} end={}",
+            if starts_json { "jsonread" } else { "text" },
+            show_header(&header),
+            show_groups(&groups),
+            end
+        )
+    }));
+    r.unwrap_or_else(|_| "panic".to_string())
+}
+
+fn c10(cmd: &str, f: &[&str]) -> Option<String> {
+    let cut = f.iter().position(|x| *x == "|").unwrap_or(f.len());
+    Some(match cmd {
+        "w" | "wj" => match parse_report(&f[..cut]) {
+            Err(e) => format!("EXN {e}"),
+            Ok(rep) => {
+                let mut buf: Vec<u8> = Vec::new();
+                let res = {
+                    let mut w = ReportWriter::new(&mut buf, false);
+                    if cmd == "w" {
+                        w.write_as_text(&rep.header, rep.groups.iter())
+                    } else {
+                        w.write_as_json(&rep.header, rep.groups.iter())
+                    }
+                };
+                match res {
+                    Ok(()) => bytes_field(&buf),
+                    Err(e) => format!("EXN write failed: {e}"),
+                }
+            }
+        },
+        "r" if f.len() == 1 => cmd_read(parse_bytes_field(f[0])),
+        // Path::from(bytes).to_path_buf() (normalisation by std::path components)
+        "pn" if f.len() == 1 => bytes_field(&path_bytes(&path_of(&parse_bytes_field(f[0])))),
+        // Path::from_escaped_string
+        "pd" if f.len() == 1 => {
+            let x = parse_bytes_field(f[0]);
+            match std::str::from_utf8(&x) {
+                Err(_) => "notstr".to_string(),
+                Ok(s) => match catch_unwind(AssertUnwindSafe(|| Path::from_escaped_string(s))) {
+                    Err(_) => "panic".to_string(),
+                    Ok(Err(_)) => "err".to_string(),
+                    Ok(Ok(p)) => format!("ok {}", bytes_field(&path_bytes(&p))),
+                },
+            }
+        }
+        // ByteSize texts of the given numbers: n:<bytes> ...
+        "hs" => f
+            .iter()
+            .map(|x| {
+                let n: u64 = x.parse().unwrap();
+                format!("{}:{}", n, bytes_field(FileLen(n).to_string().as_bytes()))
+            })
+            .collect::<Vec<_>>()
+            .join(" "),
+        _ => return None,
+    })
+}
+
 fn main() {
     // panics of the code under test are caught and reported as "panic"; keep stderr quiet
     std::panic::set_hook(Box::new(|_| {}));
@@ -112,7 +351,7 @@ fn main() {
         let res = if toks.is_empty() {
             "EXN empty line".to_string()
         } else {
-            match c17(toks[0], &toks[1..]) {
+            match c17(toks[0], &toks[1..]).or_else(|| c10(toks[0], &toks[1..])) {
                 Some(r) => r,
                 None => format!("EXN unknown command {}", toks[0]),
             }
